@@ -40,6 +40,16 @@ fn parse_expire_time(bytes: &[u8], unit_millis: bool) -> Option<Duration> {
     Some(Duration::from_millis(millis as u64))
 }
 
+/// Parse a sorted-set score or score bound. Everything `f64` parses is accepted
+/// except NaN, which Redis refuses: a score that is not a number has no place in
+/// the ordering.
+fn parse_score(bytes: &[u8]) -> std::result::Result<f64, ()> {
+    match String::from_utf8_lossy(bytes).parse::<f64>() {
+        Ok(n) if !n.is_nan() => Ok(n),
+        _ => Err(()),
+    }
+}
+
 /// Connection ID generator
 static CONN_ID_COUNTER: AtomicU64 = AtomicU64::new(1);
 
@@ -1877,7 +1887,7 @@ impl Server {
         for i in (2..parts.len()).step_by(2) {
             let score = match &parts[i] {
                 RespFrame::BulkString(Some(bytes)) => {
-                    match String::from_utf8_lossy(bytes).parse::<f64>() {
+                    match parse_score(bytes) {
                         Ok(n) => n,
                         Err(_) => return Ok(RespFrame::error("ERR value is not a valid float")),
                     }
@@ -2175,7 +2185,7 @@ impl Server {
         // Extract min score
         let min_score = match &parts[2] {
             RespFrame::BulkString(Some(bytes)) => {
-                match String::from_utf8_lossy(bytes).parse::<f64>() {
+                match parse_score(bytes) {
                     Ok(n) => n,
                     Err(_) => return Ok(RespFrame::error("ERR min or max is not a float")),
                 }
@@ -2186,7 +2196,7 @@ impl Server {
         // Extract max score
         let max_score = match &parts[3] {
             RespFrame::BulkString(Some(bytes)) => {
-                match String::from_utf8_lossy(bytes).parse::<f64>() {
+                match parse_score(bytes) {
                     Ok(n) => n,
                     Err(_) => return Ok(RespFrame::error("ERR min or max is not a float")),
                 }
@@ -2239,7 +2249,7 @@ impl Server {
         // Extract max score
         let max_score = match &parts[2] {
             RespFrame::BulkString(Some(bytes)) => {
-                match String::from_utf8_lossy(bytes).parse::<f64>() {
+                match parse_score(bytes) {
                     Ok(n) => n,
                     Err(_) => return Ok(RespFrame::error("ERR min or max is not a float")),
                 }
@@ -2250,7 +2260,7 @@ impl Server {
         // Extract min score
         let min_score = match &parts[3] {
             RespFrame::BulkString(Some(bytes)) => {
-                match String::from_utf8_lossy(bytes).parse::<f64>() {
+                match parse_score(bytes) {
                     Ok(n) => n,
                     Err(_) => return Ok(RespFrame::error("ERR min or max is not a float")),
                 }
@@ -2303,7 +2313,7 @@ impl Server {
         // Extract min score
         let min_score = match &parts[2] {
             RespFrame::BulkString(Some(bytes)) => {
-                match String::from_utf8_lossy(bytes).parse::<f64>() {
+                match parse_score(bytes) {
                     Ok(n)
 
  => n,
@@ -2316,7 +2326,7 @@ impl Server {
         // Extract max score
         let max_score = match &parts[3] {
             RespFrame::BulkString(Some(bytes)) => {
-                match String::from_utf8_lossy(bytes).parse::<f64>() {
+                match parse_score(bytes) {
                     Ok(n) => n,
                     Err(_) => return Ok(RespFrame::error("ERR min or max is not a float")),
                 }
@@ -2346,7 +2356,7 @@ impl Server {
         // Extract increment
         let increment = match &parts[2] {
             RespFrame::BulkString(Some(bytes)) => {
-                match String::from_utf8_lossy(bytes).parse::<f64>() {
+                match parse_score(bytes) {
                     Ok(n) => n,
                     Err(_) => return Ok(RespFrame::error("ERR value is not a valid float")),
                 }
